@@ -550,3 +550,152 @@ _sddc.loop(0, invariant=[lambda retry_gen, gcount: And_(retry_gen >= 0, eq(retry
 
 for _q in ['ecdsa.keys._truncate_and_convert_digest']:
     _R[_q].theories = {"shift"}
+
+
+# ---- C14 wrappers: from_public_key_recovery(_with_digest) -------------------------------------------------------------------
+def _recover_apply(ex, F, vals, line):
+    """Signature.recover_public_keys by contract (C14): for a genuine signature the keys dG and (-d - 2e/r)G, minus a candidate at infinity"""
+    W = F.world
+    sig, e = vals["self"], vals["hash"]
+    e = e if isinstance(e, FInt) else F.opaque(ex, e, "e")
+    r, s = sig.fields["r"], sig.fields["s"]
+    k = W.get("nonce")
+    if k is None:
+        raise EngineLimit("recover_public_keys by contract needs the genuine-signature world")
+    ok = F.equal(r.res, xcoord_atom(ex, F, k.res).res) and F.equal(s.res * k.res, e.res + r.res * W["d"].res)
+    ex.oblige_decided("%s#call(Signature.recover_public_keys)#requires-genuine-signature-over-this-digest" % ex.cur_func, ok, "sympy",
+                      "the (r, s) and digest handed to recover_public_keys are not the signature / digest of the caller's arguments", line, kind="call-requires")
+    out = []
+    from contracts.ellipticcurve import mk_abstract
+    for sc in (W["d"].res, -W["d"].res - 2 * e.res / r.res):
+        if not F.decide_zero(sc):
+            pt = mk_abstract(ex, F, sc, like=W["G"])
+            out.append(SObj(ex.convert(E.real_ecdsa().Public_key), {"curve": W["curve"], "generator": W["G"], "point": pt}))
+    return out
+
+
+_R[E.ECDSA + "Signature.recover_public_keys"].apply_fn = _recover_apply
+
+
+def _rw_setup(with_digest, trunc):
+    def setup(ex, F):
+        W = mk_key_world(ex, F)
+        k = mk_nonce(ex, F)
+        W["nonce"] = k
+        rx = xcoord_atom(ex, F, k.res)
+        F.ranges[rx.res] = (lin(0, 1), lin(1, -1))
+        F.assume_nonzero(rx.res)
+        digest = ex.fresh_bytes("digest")
+        ex.assume(blen(digest) >= 1)
+        data = ex.fresh_bytes("data")
+        hf = _hash_of(ex, data, digest)
+        e = F.opaque(ex, trunc_spec(digest, W["kcurve"], trunc), "e")
+        s_val = (e.res + rx.res * W["d"].res) / k.res
+        F.assume_nonzero(s_val)
+        sig = Encoded(rx, FInt(F, s_val, (lin(0, 1), lin(1, -1))), W["n"])
+        env = {"cls": ex.convert(real_keys().VerifyingKey), "signature": sig, "curve": W["kcurve"], "hashfunc": hf, "sigdecode": mk_sigdecode(), "allow_truncate": trunc,
+               "_digest": digest}
+        if with_digest:
+            env["digest"] = digest
+        else:
+            env["data"] = data
+        return env
+    return setup
+
+
+def _hash_of(ex, data, digest):
+    """a hash function object whose digest of `data` is `digest`"""
+    def model(ex_, args, kwargs, line):
+        return HashObj(digest)
+    return SCallable("hashfunc", model)
+
+
+def _hashobj_digest(ex, obj, args, kw, line):
+    if isinstance(obj, HashObj):
+        return obj.dg
+    if _prev_digest is not None:
+        return _prev_digest(ex, obj, args, kw, line)
+    raise EngineLimit("digest() on %r" % (obj,))
+
+
+from pyvc.models import MODELS as _M
+_prev_digest = _M.get("method.digest")
+_M["method.digest"] = _hashobj_digest
+
+
+def _rw_post(ex, F, env, out, snap):
+    W = F.world
+    if out[0] == "exc":
+        ok = out[1].endswith("BadDigestError") and env["allow_truncate"] is False
+        yield "no-escape-for-a-genuine-signature", ok, "raised %s at line %s" % (out[1], out[2])
+        return
+    lst = out[1]
+    ok = isinstance(lst, list) and all(isinstance(v, SObj) and v.cls.qual.endswith("VerifyingKey") for v in lst)
+    yield "returns-verifying-keys", ok, "returned %r" % (lst,)
+    if not ok:
+        return
+    yield "at-most-two", len(lst) <= 2, "%d keys" % len(lst)
+    scal = [v.fields["pubkey"].fields["point"].ghost.get("scalar") for v in lst]
+    yield "contains-the-signers-key", any(F.equal(s_, W["d"].res) for s_ in scal), "candidate scalars %s" % (scal,)
+    yield "keys-on-the-given-curve", all(v.fields["curve"] is env["curve"] for v in lst), "curve not passed on"
+
+
+for _wd in (True, False):
+    kmethod("VerifyingKey", "from_public_key_recovery_with_digest" if _wd else "from_public_key_recovery",
+            [("truncate=%s" % t, _rw_setup(_wd, t)) for t in (True, False)], _rw_post, None, props=("C14",))
+
+
+def recovery_wrappers_bounded(tier, seed):
+    """run-time check of from_public_key_recovery(_with_digest) on real curves, both decoders"""
+    import hashlib
+    import ecdsa
+    from ecdsa import util as U
+    found = {}
+    n_cases = 0
+    for curve in (ecdsa.NIST192p, ecdsa.SECP160r1, ecdsa.NIST256p, ecdsa.BRAINPOOLP160r1):
+        for d in (1, 2, curve.order - 1, 0x1234567 % curve.order or 3):
+            sk = ecdsa.SigningKey.from_secret_exponent(d, curve, hashlib.sha256)
+            vk = sk.verifying_key
+            for enc, dec in ((U.sigencode_string, U.sigdecode_string), (U.sigencode_der, U.sigdecode_der)):
+                for trunc in (True, False):
+                    data = b"recover me %d" % d
+                    digest = hashlib.sha256(data).digest() if trunc else hashlib.sha256(data).digest()[:curve.baselen]
+                    sig = sk.sign_digest(digest, sigencode=enc, k=7 + d % 5, allow_truncate=trunc)
+                    n_cases += 1
+                    try:
+                        ks = ecdsa.VerifyingKey.from_public_key_recovery_with_digest(sig, digest, curve, hashfunc=hashlib.sha256, sigdecode=dec, allow_truncate=trunc)
+                        ok = vk in ks and len(ks) <= 2 and all(k_.verify_digest(sig, digest, sigdecode=dec, allow_truncate=trunc) for k_ in ks)
+                        obs = "recovered %d keys, signer's key %s" % (len(ks), "present" if vk in ks else "MISSING")
+                    except Exception as e:
+                        ok, obs = False, "raised %s: %s" % (type(e).__name__, e)
+                    if not ok:
+                        found.setdefault("keys.VerifyingKey.from_public_key_recovery_with_digest#contains-the-signers-key",
+                                         (dict(signature=sig, digest=digest, curve=Recipe("ecdsa.curves.%s" % curve.name), hashfunc=Recipe("__import__('hashlib').sha256"),
+                                               sigdecode=Recipe("ecdsa.util.%s" % dec.__name__), allow_truncate=trunc), obs))
+                    if trunc:
+                        sig2 = sk.sign(data, hashfunc=hashlib.sha256, sigencode=enc, k=7 + d % 5)
+                        n_cases += 1
+                        try:
+                            ks = ecdsa.VerifyingKey.from_public_key_recovery(sig2, data, curve, hashfunc=hashlib.sha256, sigdecode=dec)
+                            ok = vk in ks and len(ks) <= 2
+                            obs = "recovered %d keys, signer's key %s" % (len(ks), "present" if vk in ks else "MISSING")
+                        except Exception as e:
+                            ok, obs = False, "raised %s: %s" % (type(e).__name__, e)
+                        if not ok:
+                            found.setdefault("keys.VerifyingKey.from_public_key_recovery#contains-the-signers-key",
+                                             (dict(signature=sig2, data=data, curve=Recipe("ecdsa.curves.%s" % curve.name), hashfunc=Recipe("__import__('hashlib').sha256"),
+                                                   sigdecode=Recipe("ecdsa.util.%s" % dec.__name__)), obs))
+    return n_cases, found, [dict(curves=4, keys=4, decoders=2)]
+
+
+def _inline_call(qual, params):
+    from pyvc.interp import FuncRef
+
+    def ap(ex, F, vals, line):
+        kw = {p: vals[p] for p in params if p in vals}
+        return ex.inline(FuncRef(qual), [], kw, line)
+    return ap
+
+
+_R[KEYS + "VerifyingKey.from_public_key_recovery_with_digest"].apply_fn = _inline_call(
+    KEYS + "VerifyingKey.from_public_key_recovery_with_digest", ["cls", "signature", "digest", "curve", "hashfunc", "sigdecode", "allow_truncate"])
